@@ -87,6 +87,24 @@ int main(void) {
       a.tv_sec = as; a.tv_nsec = an; b.tv_sec = bs; b.tv_nsec = bn;
       if (op[0] == 'a') { myth_timespec_add(&a, &b, &c); printf("add %ld %ld\n", (long)c.tv_sec, (long)c.tv_nsec); }
       else printf("gt %d\n", myth_timespec_gt(&a, &b));
+    } else if (!strcmp(op, "clocksrc")) {
+      /* clocksrc N: the library's clock source against the system real-time clock.  The deadline theorems
+         take the readings of hr_gettime as the time; this validates that a reading never lies before a reading
+         of clock_gettime(CLOCK_REALTIME) made just before it (a source truncated to microseconds does, by up
+         to 999 ns, and then a sleep measured with the real clock returns early) nor after one made just after. */
+      long n, early = 0, late = 0, worst = 0; int subus = 0;
+      if (scanf("%ld", &n) != 1) return 2;
+      g_myth_verif_clock = 0;
+      for (long i = 0; i < n; i++) {
+        struct timespec a, h, b;
+        clock_gettime(CLOCK_REALTIME, &a); hr_gettime(&h); clock_gettime(CLOCK_REALTIME, &b);
+        long ha = (h.tv_sec - a.tv_sec) * 1000000000L + (h.tv_nsec - a.tv_nsec);
+        long bh = (b.tv_sec - h.tv_sec) * 1000000000L + (b.tv_nsec - h.tv_nsec);
+        if (ha < 0) { early++; if (-ha > worst) worst = -ha; }
+        if (bh < 0) late++;
+        if (h.tv_nsec % 1000) subus = 1;
+      }
+      printf("clocksrc early=%ld late=%ld worst_ns=%ld subus=%d\n", early, late, worst, subus);
     } else if (!strcmp(op, "nsleep") || !strcmp(op, "usleep") || !strcmp(op, "sleep")) {
       long rs = 0, rn = 0; int ret;
       if (!strcmp(op, "nsleep")) { if (scanf("%ld %ld", &rs, &rn) != 2) return 2; }
